@@ -65,6 +65,8 @@ class Tr:
             raise Untranslatable("constant %r" % (v,))
         if isinstance(node, ast.List) and not node.elts:
             return "(PList [])"
+        if isinstance(node, ast.Dict) and not node.keys:
+            return "(PObj [])"
         if isinstance(node, ast.Attribute):
             d = _dotted(node)
             if d in self.calls and not callable(self.calls[d]):
